@@ -1147,38 +1147,61 @@ Lemma same_map_refl m : same_map m m = true.
 Proof. unfold same_map. apply list_eqb_refl. apply kv_eqb_refl. Qed.
 
 (* the observation record the model itself would produce for one block *)
-Definition model_obs (marker : bool) (maxz : Z) (prev : list kv) (ptot : Z) (os : list oper)
+Definition model_obs (marker : bool) (maxz minz : Z) (fresh : bool) (prev : list kv) (ptot : Z) (os : list oper)
                      (stored_before : list kv) : option step :=
   match cands_of os with
   | CandsOk cs =>
       let r := end_block (mkD prev ptot stored_before marker) (Some cs) (Z.to_nat maxz) [] in
-      Some (mkStep marker marker maxz prev ptot os [] false (cmt_code prev (fst r)) (fst r) (d_vals (snd r)) (d_total (snd r)) (d_upd (snd r))
+      Some (mkStep marker marker maxz minz minz (if marker then minz else -1) fresh prev ptot os [] false
+                   (cmt_code prev (fst r)) (fst r) (d_vals (snd r)) (d_total (snd r)) (d_upd (snd r))
                    (d_marker (snd r)))
   | _ => None
   end.
 
-Lemma model_meets_monitor marker maxz prev ptot os stored_before s :
-  wf_prev prev = true -> registry_ok os = true -> ptot = sum_pow prev ->
-  model_obs marker maxz prev ptot os stored_before = Some s -> monitor_step s = true.
+(* when every stored active value is what the operator module's hook derives from the configured minimum, eligibility
+   from the configuration and eligibility from the stored active values coincide *)
+Lemma eligible_cfg_consistent minz os :
+  forallb (usd_consistent minz) os = true -> eligible_cfg minz os = eligible_opers os.
 Proof.
-  intros Hp Hr Ht Hs. unfold model_obs in Hs. destruct (cands_of os) as [cs| |] eqn:Ec; try discriminate.
+  induction os as [|o r IH]; intros H; [reflexivity|].
+  cbn [forallb] in H. apply andb_true_iff in H. destruct H as [Ho Hr].
+  unfold eligible_cfg, eligible_opers in *. cbn [flat_map]. rewrite (IH Hr).
+  unfold usd_consistent in Ho. apply Z.eqb_eq in Ho. rewrite <- Ho. reflexivity.
+Qed.
+
+Lemma cfg_clause (fresh : bool) got n minz os :
+  (fresh = true -> eligible_cfg minz os = eligible_opers os) ->
+  same_map got (target n (eligible_opers os)) = true ->
+  (negb fresh || same_map got (target n (eligible_cfg minz os))) = true.
+Proof. intros H Hs. destruct fresh; simpl; [rewrite (H eq_refl); exact Hs | reflexivity]. Qed.
+
+Lemma model_meets_monitor marker maxz minz fresh prev ptot os stored_before s :
+  wf_prev prev = true -> registry_ok os = true -> ptot = sum_pow prev ->
+  (fresh = true -> forallb (usd_consistent minz) os = true) ->
+  model_obs marker maxz minz fresh prev ptot os stored_before = Some s -> monitor_step s = true.
+Proof.
+  intros Hp Hr Ht Hfr Hs. unfold model_obs in Hs. destruct (cands_of os) as [cs| |] eqn:Ec; try discriminate.
   pose proof (cands_of_wf os cs Hr Ec) as Hc. inversion Hs; subst s; clear Hs.
   unfold monitor_step. simpl s_panicked. cbv iota. cbn [s_cmt s_prev s_upd]. rewrite Z.eqb_refl. cbn [negb]. cbv iota.
+  cbn [s_min_self s_avs_min_self]. rewrite Z.eqb_refl. cbn [negb]. cbv iota.
   simpl s_epoch_ended. destruct marker.
   - simpl negb. cbv iota. simpl s_prev. simpl s_upd. simpl s_max. simpl s_opers. simpl s_after.
-    simpl s_total_after. simpl s_stored_upd. simpl s_marker_after.
+    simpl s_total_after. simpl s_stored_upd. simpl s_marker_after. cbn [s_fresh s_hook_min].
     pose proof (end_block_epoch (mkD prev ptot stored_before true) cs (Z.to_nat maxz) [] eq_refl Hp Hc
                   (norev_ok_nil _ _)) as H. simpl in H.
     destruct H as [Hout [Hupd [Hm [Hvals [Hget [Hw Htot]]]]]].
     rewrite Hout, Hupd, Hm, Hout.
     destruct (diff_result prev cs (Z.to_nat maxz) Hp Hc) as [Hcmt [Hg1 _]]. rewrite Hcmt.
-    rewrite <- (target_registry os cs (Z.to_nat maxz) Ec).
     assert (Hn1 : NoDup (map fst (apply_map prev (end_block_diff prev cs (Z.to_nat maxz))))).
     { apply apply_map_nodup. apply wf_prev_spec. exact Hp. }
     assert (Hn2 : NoDup (map fst (target (Z.to_nat maxz) cs))) by (apply target_nodup; exact Hc).
+    assert (Hsm : same_map (apply_map prev (end_block_diff prev cs (Z.to_nat maxz)))
+                           (target (Z.to_nat maxz) (eligible_opers os)) = true).
+    { rewrite <- (target_registry os cs (Z.to_nat maxz) Ec). apply same_map_ext; assumption. }
     repeat (apply andb_true_iff; split).
     + exact Hp.
-    + apply same_map_ext; assumption.
+    + exact Hsm.
+    + apply cfg_clause; [|exact Hsm]. intros E. apply eligible_cfg_consistent. apply Hfr. exact E.
     + apply forallb_forall. intros [k p] Hin. simpl.
       apply diff_in in Hin; try assumption.
       destruct (res_spec_entries prev _ k p (fun c Hc' => proj2 (top_k_in _ _ c Hc')) Hin) as [H1|[H1 H2]].
